@@ -250,32 +250,52 @@ def build_clean_network(rng, N, families, class_jds, class_weights=None, assort=
     if q is not None:
         G._quiet = True
     G.add_nodes_from(range(N))
-    deg = [[0] * T for _ in range(N)]
+    colnames = []
+    for name, _, _ in families:
+        for nm in (name if isinstance(name, (list, tuple)) else [name]):
+            if nm not in colnames:
+                colnames.append(nm)
+    deg = [[0] * len(colnames) for _ in range(N)]
     for mid, (t, vs) in enumerate(final):
         name = families[t][0]
         es = _shape_edges(families[t][1], vs)
+        touched = {}
         for n_e, (a, b) in enumerate(es):
+            nm = name[n_e] if isinstance(name, (list, tuple)) else name
             G.add_edge(a, b)
-            G.edges[a, b][NN.TOPOLOGY] = name[n_e] if isinstance(name, (list, tuple)) else name
+            G.edges[a, b][NN.TOPOLOGY] = nm
             G.edges[a, b][NN.MOTIF_IDS] = mid
-        for v in vs:
-            deg[v][t] += 1
+            touched.setdefault(a, set()).add(nm)
+            touched.setdefault(b, set()).add(nm)
+        for v, nms in touched.items():
+            for nm in nms:
+                deg[v][colnames.index(nm)] += 1
     for v in range(N):
         G.nodes[v][NN.JOINT_DEGREE] = tuple(deg[v])
     if q is not None:
         G._quiet = False
         G.events = []
-    info = {"motifs": len(final), "dropped": dropped, "repair_steps": steps, "classes": cls,
+    info = {"motifs": len(final), "dropped": dropped, "repair_steps": steps, "classes": cls, "names": colnames,
             "off_class_vertices": sum(1 for v in range(N) if tuple(deg[v]) != tuple(class_jds[cls[v]]))}
     return G, info
 
 
-def check_clean(G):
-    """independent re-check that a builder output is a clean motif network (harness self-check)."""
+def check_clean(G, families=None):
+    """independent re-check that a builder output is a clean motif network (harness self-check):
+    no self-loop, every motif id on distinct vertices forming one connected edge set, annotations present."""
     from gcmpy import NetworkNames as NN
     by = {}
     for u, v, d in G.edges(data=True):
         if u == v:
             return "self-loop"
+        if NN.TOPOLOGY not in d or NN.MOTIF_IDS not in d:
+            return "edge without annotation"
         by.setdefault(d[NN.MOTIF_IDS], []).append((u, v))
+    for mid, es in by.items():
+        g = nx.Graph(es)
+        if not nx.is_connected(g):
+            return "motif %r not connected" % (mid,)
+    for v in G.nodes():
+        if NN.JOINT_DEGREE not in G.nodes[v]:
+            return "vertex without joint degree"
     return None
